@@ -143,6 +143,12 @@ def decode_junk(v: Any) -> Any:
     return v
 
 
+EXTRA_SEEDS += [
+    "{{ a[" + "9" * 4301 + "] }}", "{% for x in a[-" + "9" * 4400 + "] %}{{ x }}{% endfor %}",
+    "{{ a[1][" + "1" + "0" * 5000 + "].b }}", "{{ (1..2)[" + "7" * 4301 + "] }}",
+]
+
+
 def _corpus_sources() -> list[dict[str, Any]]:
     return corpus() + [{"template": t, "data": {}} for t in EXTRA_SEEDS]
 
@@ -191,6 +197,11 @@ def text_case(draw: Any) -> dict[str, Any]:
             "mode": draw(st.sampled_from(["sync", "sync", "async"]))}
 
 
+# generous resource limits: nothing here comes near them, but the limited buffers and counters are in use
+LIMITS = st.sampled_from([None, None, None, {"output_stream_limit": 10 ** 7},
+                          {"output_stream_limit": 10 ** 7, "loop_iteration_limit": 10 ** 6,
+                           "local_namespace_limit": 10 ** 8}])
+
 PROG_CFG = Cfg(confusion=0.3, wc_rate=0.05, shopify=True, tablerow=True, date=True, max_depth=3, budget=10,
                range_vars=False)
 
@@ -199,7 +210,7 @@ PROG_CFG = Cfg(confusion=0.3, wc_rate=0.05, shopify=True, tablerow=True, date=Tr
 def prog_case(draw: Any) -> dict[str, Any]:
     prog = draw(program_strategy(PROG_CFG))
     return {"kind": "prog", "prog": prog, "layout": draw(st.integers(0, 3)), "data": draw(hostile_data()),
-            "mode": draw(st.sampled_from(["sync", "async"]))}
+            "mode": draw(st.sampled_from(["sync", "async"])), "limits": draw(LIMITS)}
 
 
 # ---- template names handed to file-system / package loaders (from data or as literals)
@@ -277,7 +288,7 @@ def filter_case(draw: Any) -> dict[str, Any]:
               draw(junk)]
     return {"kind": "filter", "name": name, "left": draw(junk), "args": args, "kw": kw,
             "site": draw(st.sampled_from(["out", "assign", "for", "if", "tstr", "contains", "path", "range", "args"])),
-            "mode": draw(st.sampled_from(["sync", "async"]))}
+            "mode": draw(st.sampled_from(["sync", "async"])), "limits": draw(LIMITS)}
 
 
 PARTIALS = {
@@ -413,7 +424,9 @@ class C02(Prop):
             res.labels.append("filter:" + case["name"])
 
         data = decode_junk(data)
-        env = make_env(templates, shopify=shopify)
+        env = make_env(templates, shopify=shopify, limits=case.get("limits"))
+        if case.get("limits"):
+            res.labels.append("limits")
         try:
             tmpl = env.from_string(src)
         except LiquidError as err:
